@@ -478,6 +478,16 @@ where
                 self.0.load_folders().await?;
             }
 
+            // Reloading the summaries (above, possibly whilst merging
+            // another folder) reads the names from storage which may
+            // run before the rename event of this folder has been
+            // applied; make sure the in-memory name is up to date
+            for event in &events {
+                if let WriteEvent::SetVaultName(name) = event {
+                    self.0.set_folder_name(folder_id, name, Internal)?;
+                }
+            }
+
             outcome.changes += len;
             outcome.tracked.add_tracked_folder_changes(
                 folder_id,
